@@ -127,6 +127,9 @@ C08_AfterSignal(o) ==
   (Interrupting(o) /\ o.sig /\ ~o.preSig) => o.afterSig <= Bound(o.strategy, o.k, IncludeOf(o))
 C08_PreSignal(o) ==
   (Interrupting(o) /\ o.preSig) => Len(o.started) <= PreBound(o.strategy, o.k)
+(* "... and the call returns": once interrupted, a call that is pending with nothing in flight and no wake-up  *)
+(* scheduled will never return (the C04 dead end, reported under C08 when an interrupt is in play)          *)
+C08_Returns(idle, returned, inflight) == C04_NoDeadlock(idle, returned, inflight)
 (* everything started is completed and reported as processed *)
 C08_StartedProcessed(started, processed, inflight) ==
   Range(started) \subseteq Range(processed) /\ inflight = {}
